@@ -109,7 +109,14 @@ def check_case(ctx, case):
             if U is None:
                 ctx.count("skipped:unconstructible_draws:" + name)
                 continue
-            o = call(fn, fore, S.catalog(region), num_simulations=nsim, random_numbers=numpy.array(U, dtype=float).reshape(nsim, n_act))
+            if case.get("np_divide_raise") and kind == "binary":
+                # caller's numpy error state raises on log(0): the binary likelihood shields its own log(0) (an active zero-rate bin
+                # gives -inf by definition, not an exception)
+                with numpy.errstate(divide="raise"):
+                    o = call(fn, fore, S.catalog(region), num_simulations=nsim, random_numbers=numpy.array(U, dtype=float).reshape(nsim, n_act))
+                ctx.count("binary_tests_under_divide_raise")
+            else:
+                o = call(fn, fore, S.catalog(region), num_simulations=nsim, random_numbers=numpy.array(U, dtype=float).reshape(nsim, n_act))
             if not o.ok:
                 ctx.unexpected(o, name)
                 continue
@@ -176,6 +183,8 @@ def cases(draw):
     c = draw(G.setups(max_cells=12, max_mags=4, max_events=40, lo=-9, hi=1))
     c["k"] = "tests"
     c["nsim"] = draw(st.integers(1, 3))
+    if draw(st.integers(0, 3)) == 0:
+        c["np_divide_raise"] = True
     if draw(st.booleans()):
         c["rescale"] = draw(st.sampled_from([0.5, 2.0, 0.25, 8.0]))
     return c
